@@ -8,8 +8,8 @@ MCOps == ${Ops}
 MCJunkSizes == ${JunkSizes}
 View == sv
 Obs == [good |-> good, stage |-> stage, req |-> req, rN |-> rN]
-\* the graph handed to the driver: the wire is summarised (the driver rebuilds it from the operators)
-Node == [phase |-> phase, w |-> [i \in 1..Len(wire) |-> <<wire[i].ses, wire[i].id, wire[i].sz, wire[i].flip>>], nops |-> nops,
+\* the graph handed to the driver: one node per state (every frame is determined by session, number, size and its damage flags)
+Node == [phase |-> phase, w |-> [i \in 1..Len(wire) |-> <<wire[i].ses, wire[i].id, wire[i].sz, wire[i].flip, wire[i].cut, wire[i].pok>>], nops |-> nops,
          pos |-> pos, stage |-> stage, sk |-> sk, rN |-> rN, peer |-> peer, gi |-> gi, good |-> good, req |-> req, bound |-> bound,
          bad |-> <<alien, touched, forged, failed>>, nr |-> nreads]
 Emit == PrintT("EDGE " \o ToJson([f |-> Node, a |-> act', t |-> Node', o |-> Obs']))
